@@ -82,7 +82,7 @@ TEXT = {
  "C29": ("model_checking", "Script.tla: reject or an answer the kernel does not refute, plus memo against the embedding logic",
          "Out-of-fragment scripts under difference logics and non-linear products.", "", "6/C29"),
  "C30": ("model_checking", "Script_Trace time-out event has no matching action (C30 tag); CDCLT termination at design level",
-         "Non-integer scripts under all engines / tracking options / histories must answer within 20 s.", "Bound-based.", "6/C30"),
+         "Non-integer scripts under all engines / tracking options / histories must answer within 20 s; includes equality systems over nested uninterpreted terms and deep DAG-shaped terms written with let.", "Bound-based; tower families are not evaluated by the kernel (returning and agreement only).", "6/C30"),
 }
 
 def main():
